@@ -276,6 +276,13 @@ def run(chk: Check) -> None:
             r8.ok(key, rs.loc())
         else:
             r8.violation(key, rs.loc(), f"SymbolTableNode.write may emit a {c.name} record (static type SymbolNode) but read_symbol has no branch for tag {t}: the symbol cannot be decoded when first used")
+    _hook_tail(chk, ix, R, terms)
+
+
+def _hook_tail(chk, ix, R, terms):
+    run_json_and_coverage(chk, ix, R, terms)
+    run_order_discipline(chk, ix, R)
+    run_field_coverage(chk, ix, R, terms)
 
 
 def last_token(seq):
@@ -283,3 +290,418 @@ def last_token(seq):
         return None
     it = seq[-1]
     return it
+
+
+# ======================================================================= JSON, coverage, fix-up, determinism
+
+from ..jsonser import deserialize_map, serialize_map  # noqa: E402
+from ..resolve import members  # noqa: E402
+
+JSON_MODULES = ("mypy.nodes", "mypy.types", "mypy.cache")
+
+
+def json_classes(ix):
+    out = []
+    for q, c in sorted(ix.classes.items()):
+        if c.module.name not in JSON_MODULES:
+            continue
+        s, d = c.methods.get("serialize"), c.methods.get("deserialize")
+        if s is None or d is None or any(isinstance(x, ast.Raise) for x in s.node.body):
+            continue
+        out.append(c)
+    return out
+
+
+def writer_field_labels(seq, acc=None, depth=0):
+    """Root attribute names carried by a writer term, with the kind of the item (top-level fields only)."""
+    acc = {} if acc is None else acc
+    for it in seq:
+        k = it[0]
+        if k == "P":
+            acc.setdefault(root_of(it[2]), it[1])
+        elif k == "BOOL":
+            acc.setdefault(root_of(it[1]), "bool")
+        elif k == "BODY":
+            acc.setdefault(root_of(it[2]), "obj")
+        elif k == "FLAGS":
+            for l in it[1]:
+                acc.setdefault(root_of(l), "flag")
+        elif k == "ALT":
+            for _, (s2, _) in it[1].items():
+                writer_field_labels(s2, acc, depth + 1)
+        elif k == "LOOP":
+            writer_field_labels(it[1], acc, depth + 1)
+        elif k == "COND":
+            writer_field_labels(it[2], acc, depth + 1)
+            writer_field_labels(it[3], acc, depth + 1)
+    return acc
+
+
+def root_of(label: str) -> str:
+    l = norm_label(label).lstrip("$")
+    return l.split(".")[0]
+
+
+def run_json_and_coverage(chk: Check, ix, R, terms) -> None:
+    W = Wire(ix, R)
+    r4 = chk.rule("R11.4", "JSON: keys consumed by deserialize ⊆ keys produced by serialize, produced keys are consumed, the attribute stored under a key is the attribute it is loaded into, and JSON and binary formats carry the same attribute set (flags included)", floor=30)
+    jc = json_classes(ix)
+    if len(jc) < 30:
+        raise AnalysisError(f"only {len(jc)} JSON serializer classes found")
+    n_keys = 0
+    for c in jc:
+        s, d = c.methods["serialize"], c.methods["deserialize"]
+        sm, notes = serialize_map(s)
+        dm = deserialize_map(W, d)
+        P, C = set(sm), set(dm)
+        where = f"{c.module.relpath}:{s.node.lineno}"
+        n_keys += len(P)
+        if not P and not C:
+            r4.info(f"{c.qualname}: JSON pair without literal keys", where)
+            continue
+        for k in sorted(C - P):
+            if k == ".class":
+                continue
+            if dm[k]["optional"]:
+                r4.ok(f"{c.qualname}: key {k!r} read with .get (may be absent)", where, "legacy/optional key")
+            else:
+                r4.violation(f"{c.qualname}: key {k!r} consumed but never produced", f"{c.module.relpath}:{d.node.lineno}", "deserialize indexes a key that serialize does not store: KeyError on every load of this record")
+        for k in sorted(P - C - {".class"}):
+            r4.violation(f"{c.qualname}: key {k!r} produced but never consumed", where, "serialize stores a value that deserialize ignores: the field silently reverts to its default after a cache round trip")
+        for k in sorted(P & C):
+            src, dest = sm[k], dm[k]["dest"]
+            if k == ".class" or dest in (None, "<test>", "RET") or src in ("const",) or src.startswith("flags:") or dest == "flags":
+                continue
+            key = f"{c.qualname}: JSON key {k!r}: `{norm_label(src)}` -> `{norm_label(dest)}`"
+            if labels_agree(src, dest):
+                r4.ok(key, where)
+            else:
+                r4.violation(key, f"{c.module.relpath}:{d.node.lineno}", f"value stored under {k!r} comes from `{src}` but is loaded into `{dest}`")
+        # cross-format agreement
+        if c.qualname in terms:
+            wt = terms[c.qualname][0]
+            bfields = writer_field_labels(wt)
+            jfields = {}
+            for k, src in sm.items():
+                if k == ".class" or src == "const":
+                    continue
+                if src.startswith("flags:"):
+                    const = src.split(":", 1)[1]
+                    try:
+                        e = ast.parse(const, mode="eval").body
+                        names = ix.const_eval(c.module, e) if not isinstance(e, ast.Attribute) else ix.const_eval(c.module, e)
+                    except AnalysisError:
+                        cls_attr = c.class_assigns.get(const.split(".")[-1])
+                        names = ix.const_eval(c.module, cls_attr) if cls_attr is not None else None
+                    if names is None:
+                        raise AnalysisError(f"{c.qualname}: cannot evaluate {const}")
+                    for nme in names:
+                        jfields[root_of(nme)] = "flag"
+                else:
+                    jfields[root_of(src)] = "field"
+            bset = {k for k in bfields if k and not k.startswith("'") and k != "self"}
+            jset = set(jfields)
+            for a in sorted(jset - bset):
+                r4.violation(f"{c.qualname}: `{a}` carried by JSON but not by the binary format", where, "the two cache formats disagree: a module reloaded from the binary cache loses this attribute")
+            for a in sorted(bset - jset):
+                r4.violation(f"{c.qualname}: `{a}` carried by the binary format but not by JSON", where, "the two cache formats disagree: a module reloaded from the JSON cache loses this attribute")
+            if not (jset ^ bset):
+                r4.ok(f"{c.qualname}: JSON and binary carry the same {len(bset)} attributes", where)
+    chk.extra["json_classes"] = len(jc)
+    chk.extra["json_keys"] = n_keys
+
+    # ---------------- R11.9 count / emit agreement
+    r9 = chk.rule("R11.9", "the element count written before a loop counts the collection the loop emits, with the same filter (binary and JSON)", floor=20)
+
+    def loops(seq):
+        for it in seq:
+            if it[0] == "LOOP":
+                yield it
+                yield from loops(it[1])
+            elif it[0] == "ALT":
+                for _, (s2, _) in it[1].items():
+                    yield from loops(s2)
+            elif it[0] == "COND":
+                yield from loops(it[2])
+                yield from loops(it[3])
+
+    for cq, (wt, rt, _, _) in sorted(terms.items()):
+        c = ix.classes[cq]
+        w = c.methods["write"]
+        for lp in loops(wt):
+            if len(lp) < 6:
+                continue
+            _, body, label, filt, cnt_label, iter_txt = lp
+            key = f"{cq}: count `{cnt_label}` vs loop over `{iter_txt}`" + (f" filter `{filt}`" if filt else "")
+            if cnt_label.startswith("$"):
+                ok, why = local_count_agrees(w, cnt_label[1:], iter_txt, filt)
+                if ok:
+                    r9.ok(key, w.loc(), why)
+                else:
+                    r9.violation(key, w.loc(), why)
+                continue
+            if filt:
+                r9.violation(key, w.loc(), "the loop skips elements but the count written is len() of the whole collection: the reader runs past the end of the record")
+            elif root_of(cnt_label) == root_of(label):
+                r9.ok(key, w.loc())
+            else:
+                r9.violation(key, w.loc(), f"the count is taken from `{cnt_label}` but the loop emits elements of `{label}`")
+
+    # ---------------- R11.7 determinism of bytes
+    r7 = chk.rule("R11.7", "no serializer iterates a set or dict in hash/insertion order without sorting; the JSON encoder used for cache bytes sorts keys", floor=40)
+    funcs = []
+    for c in {**{x.qualname: x for x in binary_classes(ix)}, **{x.qualname: x for x in jc}}.values():
+        # the interface record of a module: node and type classes (IPC messages, FileRawData and the
+        # meta records are not hashed into interface hashes; their determinism belongs to C10/R10.1)
+        if c.module.name not in ("mypy.nodes", "mypy.types") or c.name in ("FileRawData",):
+            continue
+        for mname in ("write", "serialize"):
+            if mname in c.methods:
+                funcs.append(c.methods[mname])
+    for modname in ("mypy.cache", "mypy.types", "mypy.nodes"):
+        for nm, f in ix.module(modname).functions.items():
+            if nm.startswith("write_") or nm.startswith("serialize"):
+                funcs.append(f)
+    for f in sorted(funcs, key=lambda f: f.qualname):
+        env = R.env(f)
+        n_it = 0
+        for n in ast.walk(f.node):
+            iters = []
+            if isinstance(n, ast.For):
+                iters.append(n.iter)
+            elif isinstance(n, (ast.ListComp, ast.SetComp, ast.GeneratorExp, ast.DictComp)):
+                iters += [g.iter for g in n.generators]
+            for it in iters:
+                n_it += 1
+                t = R.type_of(it, f, env)
+                kinds = {x[0] for x in members(t)}
+                txt = norm(it)
+                key = f"{f.qualname}: iteration over `{txt[:60]}`"
+                if kinds & {"set", "dict", "dictkeys", "dictitems"} or (kinds & {"cls"} and any(x[0] == "cls" and R.elem_of(x) is not None and is_mapping_class(ix, x[1]) for x in members(t))):
+                    sorted_ok = isinstance(it, ast.Call) and isinstance(it.func, ast.Name) and it.func.id == "sorted"
+                    narrowed = False
+                    if isinstance(it, ast.Name):
+                        from .c12 import guard_chain
+                        for cj in guard_chain(f, n)[0]:
+                            if isinstance(cj, ast.Call) and norm(cj.func) == "isinstance" and norm(cj.args[0]) == it.id and {norm(x) for x in (cj.args[1].elts if isinstance(cj.args[1], ast.Tuple) else [cj.args[1]])} <= {"list", "tuple"}:
+                                narrowed = True
+                    if sorted_ok:
+                        r7.ok(key, f.loc(n), "sorted")
+                    elif narrowed:
+                        r7.ok(key, f.loc(n), "narrowed to list/tuple by the enclosing isinstance test")
+                    elif isinstance(n, ast.DictComp) and f.name == "serialize":
+                        r7.ok(key, f.loc(n), "builds a JSON object: key order is fixed by the encoder (sort_keys)")
+                    elif isinstance(n, ast.For) and not loop_body_emits(n):
+                        r7.ok(key, f.loc(n), "loop body only counts / computes locals (order-insensitive)")
+                    else:
+                        r7.violation(key, f.loc(n), "a serializer walks a set/dict without sorting: the bytes (and the interface hash computed from them) depend on insertion or hash order")
+                else:
+                    r7.ok(key, f.loc(n), f"ordered iterable ({sorted(kinds) or 'list-like/unknown'})")
+    jd = ix.func("mypy.util.json_dumps")
+    src = norm(jd.node)
+    if ("OPT_SORT_KEYS" in src or "sort_keys=True" in src) and all("sort_keys=True" in norm(c) or "OPT_SORT_KEYS" in norm(c) or "option" in norm(c) for c in ast.walk(jd.node) if isinstance(c, ast.Call) and norm(c.func) in ("json.dumps", "orjson.dumps")):
+        r7.ok("util.json_dumps requests sorted keys on every path", jd.loc())
+    else:
+        r7.violation("util.json_dumps requests sorted keys on every path", jd.loc(), "JSON cache bytes would depend on dict insertion order")
+
+
+def is_mapping_class(ix, q: str) -> bool:
+    ci = ix.classes.get(q)
+    if ci is None:
+        return False
+    return any(norm(b).startswith("dict") for c in ci.mro() for b in c.base_exprs)
+
+
+def loop_body_emits(lp: ast.For) -> bool:
+    for n in ast.walk(lp):
+        if isinstance(n, ast.Call):
+            nm = n.func.attr if isinstance(n.func, ast.Attribute) else getattr(n.func, "id", "")
+            if nm.startswith("write") or nm in ("serialize", "append", "extend") or nm.startswith("json"):
+                return True
+        if isinstance(n, ast.Assign) and isinstance(n.targets[0], ast.Subscript):
+            return True
+    return False
+
+
+def local_count_agrees(w: FuncInfo, name: str, iter_txt: str, filt) -> tuple[bool, str]:
+    """`size` computed by a counting loop with the same filter over the same collection."""
+    for n in ast.walk(w.node):
+        if isinstance(n, ast.For) and any(isinstance(x, ast.AugAssign) and isinstance(x.target, ast.Name) and x.target.id == name for x in ast.walk(n)):
+            f0 = None
+            for s in n.body:
+                if isinstance(s, ast.If) and any(isinstance(y, ast.Continue) for y in ast.walk(s)):
+                    f0 = norm(s.test)
+                    break
+            coll_a = norm(n.iter).replace(".items()", "").replace("sorted(", "").rstrip(")")
+            coll_b = iter_txt.replace(".items()", "").replace("sorted(", "").rstrip(")")
+            if (f0 or None) != (filt or None):
+                return False, f"the counting loop filters with `{f0}` but the emitting loop with `{filt}`: count and number of records written differ"
+            if coll_a != coll_b:
+                return False, f"the count is computed over `{norm(n.iter)}` but elements of `{iter_txt}` are emitted"
+            return True, f"counted over `{norm(n.iter)}` with the same filter"
+    return False, f"no counting loop for `{name}` found"
+
+
+def run_order_discipline(chk: Check, ix, R) -> None:
+    """R11.10: a serializer may sort only what has no order of its own."""
+    r10 = chk.rule("R11.10", "a writer that emits a container in sorted order writes a set (no inherent order); an insertion-ordered mapping or a list written sorted loses its order on reload (cold result in definition order, warm result in sorted order)", floor=4)
+    writers = []
+    for c in binary_classes(ix):
+        writers.append(c.methods["write"])
+    for modname in ("mypy.cache", "mypy.types", "mypy.nodes"):
+        for nm, f in ix.module(modname).functions.items():
+            if nm.startswith("write_"):
+                writers.append(f)
+    sorting_helpers: dict[str, str] = {}
+    for f in sorted(writers, key=lambda f: f.qualname):
+        env = R.env(f)
+        params = {a.arg for a in f.params}
+        for n in ast.walk(f.node):
+            its = []
+            if isinstance(n, ast.For):
+                its.append(n.iter)
+            elif isinstance(n, (ast.ListComp, ast.GeneratorExp)):
+                its += [g.iter for g in n.generators]
+            elif isinstance(n, ast.Call) and n.args and isinstance(n.args[-1], ast.Call) and isinstance(n.args[-1].func, ast.Name) and n.args[-1].func.id == "sorted":
+                its.append(n.args[-1])  # write_str_list(data, sorted(x))
+            for it in its:
+                if not (isinstance(it, ast.Call) and isinstance(it.func, ast.Name) and it.func.id == "sorted" and it.args):
+                    continue
+                arg = it.args[0]
+                t = R.type_of(arg, f, env)
+                kinds = {x[0] for x in members(t)}
+                mapping = bool(kinds & {"dict", "dictkeys", "dictitems", "list"}) or any(x[0] == "cls" and is_mapping_class(ix, x[1]) for x in members(t))
+                is_set = bool(kinds & {"set"})
+                key = f"{f.qualname}: sorted({norm(arg)})"
+                if is_set and not mapping:
+                    r10.ok(key, f.loc(n), "a set has no order of its own")
+                elif mapping:
+                    ann = next((norm(a.annotation) for a in f.params if isinstance(arg, ast.Name) and a.arg == arg.id and a.annotation is not None), "")
+                    if ann in ("JsonValue", "dict[str, Any]", "JsonDict"):
+                        r10.ok(key, f.loc(n), "JSON value helper: JSON objects are unordered by contract (order-carrying data is stored as lists)")
+                    elif isinstance(arg, ast.Name) and arg.id in params and f.cls is None:
+                        sorting_helpers[f.name] = norm(arg)
+                        r10.info(key, f.loc(n), "helper sorts its mapping parameter: judged at each call site")
+                    else:
+                        r10.violation(key, f.loc(n), "an insertion-ordered mapping (or list) is written in sorted key order: after a reload its iteration order differs from the freshly analysed one, and consumers that iterate it produce differently ordered diagnostics")
+                else:
+                    r10.info(key, f.loc(n), f"static type of the sorted operand unknown ({sorted(kinds)})")
+    # call sites of sorting helpers
+    for f in sorted(writers, key=lambda f: f.qualname):
+        for n in ast.walk(f.node):
+            if isinstance(n, ast.Call):
+                nm = n.func.attr if isinstance(n.func, ast.Attribute) else getattr(n.func, "id", "")
+                if nm in sorting_helpers and f.name != nm and len(n.args) >= 2:
+                    key = f"{f.qualname}: {nm}({norm(n.args[1])}) emits the mapping in sorted key order"
+                    r10.violation(key, f.loc(n), f"{nm}() sorts the keys of the mapping it is given: the reloaded dict is in sorted order while the freshly analysed one is in insertion order")
+
+
+POSITION_FIELDS = {"line", "column", "end_line", "end_column"}
+
+
+def eq_fields(c: ClassInfo):
+    f = c.methods.get("__eq__")
+    if f is None:
+        return None
+    out = set()
+    for n in ast.walk(f.node):
+        if isinstance(n, ast.Compare) and len(n.ops) == 1 and isinstance(n.left, ast.Attribute) and isinstance(n.left.value, ast.Name) and n.left.value.id == "self":
+            r = n.comparators[0]
+            if isinstance(r, ast.Attribute) and r.attr == n.left.attr:
+                out.add(n.left.attr)
+    return out
+
+
+def run_field_coverage(chk: Check, ix, R, terms) -> None:
+    W = Wire(ix, R)
+    r5 = chk.rule("R11.5", "field coverage: every attribute that takes part in a serialized type's __eq__ is carried by both formats; every declared attribute of a serialized class is serialized, re-established by fixup, AST payload, a position, or listed in the reference table; the JSON export (exportjson.convert_*) stores the keys serialize() stores", floor=60)
+    fix = ix.module("mypy.fixup")
+    fix_assigned = set()
+    for n in ast.walk(fix.tree):
+        if isinstance(n, (ast.Assign, ast.AugAssign)):
+            for t in n.targets if isinstance(n, ast.Assign) else [n.target]:
+                if isinstance(t, ast.Attribute):
+                    fix_assigned.add(t.attr)
+    for c in binary_classes(ix):
+        if c.module.name not in ("mypy.nodes", "mypy.types"):
+            continue
+        wt = terms[c.qualname][0]
+        ser = {k.lstrip("_") for k in writer_field_labels(wt)}
+        jser = None
+        if "serialize" in c.methods:
+            sm, _ = serialize_map(c.methods["serialize"])
+            jser = set()
+            for k, src in sm.items():
+                if src.startswith("flags:"):
+                    const = src.split(":", 1)[1]
+                    try:
+                        names = ix.const_eval(c.module, ast.parse(const, mode="eval").body)
+                    except AnalysisError:
+                        ca = c.class_assigns.get(const.split(".")[-1])
+                        names = ix.const_eval(c.module, ca) if ca is not None else []
+                    jser |= {root_of(x) for x in names}
+                elif src != "const":
+                    jser.add(root_of(src).lstrip("_"))
+        where = f"{c.module.relpath}:{c.node.lineno}"
+        # (a) equality fields
+        eq = eq_fields(c)
+        if eq is not None and c.module.name == "mypy.types":
+            for a in sorted(eq):
+                key = f"{c.qualname}: __eq__ field `{a}` is serialized"
+                by_name = a in ("type", "alias")  # serialized through type_ref (R11.2 table / R11.6)
+                inb = a.lstrip("_") in ser or by_name
+                inj = jser is None or a.lstrip("_") in jser or by_name
+                if inb and inj:
+                    r5.ok(key, where)
+                else:
+                    r5.violation(key, where, f"two {c.name} values that differ only in `{a}` are unequal, but `{a}` is not stored in the {'binary' if not inb else ''}{' and ' if not inb and not inj else ''}{'JSON' if not inj else ''} cache format: after a reload the value silently falls back to its default")
+        # (b) declared attributes
+        decl: dict[str, tuple] = {}
+        for k in c.mro():
+            if k.name in ("Context", "object"):
+                continue
+            for a, (ann, val, fn) in k.self_attrs().items():
+                if fn.name == "__init__":
+                    decl.setdefault(a, (ann, val))
+            for a in k.slots() or []:
+                decl.setdefault(a, (None, None))
+        for a, (ann, val) in sorted(decl.items()):
+            if a.lstrip("_") in ser or a in POSITION_FIELDS:
+                continue
+            key = f"{c.qualname}: declared attribute `{a}` not serialized"
+            at = norm(ann) if ann is not None else ""
+            if a in fix_assigned:
+                r5.ok(key, where, "re-established by fixup.py")
+            elif any(x in at for x in ("Block", "Statement", "Expression", "Argument", "Pattern")):
+                r5.ok(key, where, f"AST payload ({at[:40]}): bodies are not part of the interface")
+            elif a in ("_can_be_true", "_can_be_false", "_hash", "can_be_true", "can_be_false"):
+                r5.ok(key, where, "lazily recomputed cache of a derived value")
+            else:
+                r5.violation(key, where, f"attribute `{a}` of a serialized class is not written by write() (nor re-established by fixup): a value set before serialization is lost on reload")
+    # (c) exportjson siblings
+    ej = ix.modules.get("mypy.exportjson")
+    if ej is not None:
+        n_sib = 0
+        for name, f in sorted(ej.functions.items()):
+            if not name.startswith("convert_") or not f.params or f.params[0].annotation is None:
+                continue
+            cname = norm(f.params[0].annotation)
+            r = ix.resolve_name(ej, cname)
+            if r is None or r[0] != "class" or "serialize" not in r[1].methods:
+                continue
+            sm, _ = serialize_map(r[1].methods["serialize"])
+            em, _ = serialize_map(f)
+            if not sm or not em:
+                continue
+            n_sib += 1
+            a, b = set(sm) - {".class"}, set(em) - {".class"}
+            key = f"exportjson.{name} stores the keys {r[1].name}.serialize stores"
+            extra_ok = {"names", "defn"}  # configurable expansions of the exporter
+            # informational: mypy/exportjson.py is an auxiliary export tool, not one of the two cache formats
+            if a - b:
+                r5.info(key, f.loc(), f"EXPORT-DELTA: the JSON export omits {sorted(a - b)} which the JSON cache format stores")
+            elif (b - a) - extra_ok:
+                r5.info(key, f.loc(), f"EXPORT-DELTA: the JSON export adds {sorted(b - a)}")
+            else:
+                r5.info(key, f.loc(), "same keys")
+        chk.extra["exportjson_siblings"] = n_sib
